@@ -35,7 +35,7 @@ func escapeTemplate(tmpl *Template, node parse.Node, name string) error {
 		cerr.Name = name
 		err = &cerr
 	} else if c.state != stateText {
-		err = &Error{ErrEndContext, nil, name, 0, fmt.Sprintf("ends in a non-text context: %+v", c)}
+		err = &Error{ErrorCode: ErrEndContext, Name: name, Description: fmt.Sprintf("ends in a non-text context: %+v", c)}
 	}
 	if err != nil {
 		// Prevent execution of unsafe templates.
